@@ -125,7 +125,8 @@ class SequenceIterator(types.Recoverable, Iterator[_T]):
 
   @property
   def state(self) -> ShardConfig:
-    start_index = self._index - self.config.start
+    # `config.start` already includes the offset this config was restored with.
+    start_index = self.config.state.start_index + self._index - self.config.start
     return dc.replace(self.config.state, start_index=start_index)
 
   def __next__(self) -> _T:
